@@ -53,8 +53,8 @@ def _ffn_post(st, interp, C, res):
     st.oblige("post.jn(0) == 0", z3.Implies(C["q"] == 0, R(res.value) == 0))
 
 
-U_FF0 = Unit("magnetic_ff.formfactor_0", MFF + ".formfactor_0", _ff_inputs, _ff0_post, replay={"module": "c20", "task": "replay"})
-U_FFN = Unit("magnetic_ff.formfactor_n", MFF + ".formfactor_n", _ff_inputs, _ffn_post, replay={"module": "c20", "task": "replay"})
+U_FF0 = Unit("magnetic_ff.formfactor_0", MFF + ".formfactor_0", _ff_inputs, _ff0_post, arrays=[1], replay={"module": "c20", "task": "replay"})
+U_FFN = Unit("magnetic_ff.formfactor_n", MFF + ".formfactor_n", _ff_inputs, _ffn_post, arrays=[1], replay={"module": "c20", "task": "replay"})
 
 
 # ------------------------------------------------------------------------------ x-ray conversions
@@ -152,7 +152,7 @@ def c_sftable(interp, st, args, kw):
     return args[0].attrs["sftable"]
 
 
-U_SCATTERING_FACTORS = [Unit("Xray.scattering_factors[%s]" % m, XSF + ".Xray.scattering_factors", _sf_inputs(m), _sf_post,
+U_SCATTERING_FACTORS = [Unit("Xray.scattering_factors[%s]" % m, XSF + ".Xray.scattering_factors", _sf_inputs(m), _sf_post, arrays=["energy", "wavelength"],
                              inline={XSF + ".xray_energy"}, replay={"module": "c05", "task": "replay"})
                         for m in ("energy", "wavelength", "notable", "neither")]
 
@@ -371,7 +371,7 @@ def _fxq_post(st, interp, C, res):
     st.oblige("post.returns that value", z3.BoolVal(res.value is calls[0].attrs["result"]))
 
 
-U_FXRAYATQ = Unit("cromermann.fxrayatq", CM + ".fxrayatq", _fxq_inputs, _fxq_post,
+U_FXRAYATQ = Unit("cromermann.fxrayatq", CM + ".fxrayatq", _fxq_inputs, _fxq_post, arrays=[1],
                   contracts={CM + ".fxrayatstol": c_rec_fxrayatstol}, replay={"module": "c05", "task": "replay"})
 
 
